@@ -28,6 +28,8 @@ From CSS Require Import Gen.Prelude Gen.Compositions Count.CompositionsSpec
   Count.SampleModelParams Count.SampleParamsDict Count.SampleParamsSpec Count.SampleParamsUnion
   Count.SampleParamsProduct Count.SampleParamsTotals Count.SampleParamsPick Count.SampleUniformParams
   Count.SampleParamsExample Count.SampleParamsExample2.
+(* translator tie of _valid_compositions (separable delta: this line, the section "tie to the source" and its two Print Assumptions) *)
+From CSS Require Gen.ProductRelianceProfile Gen.ProductValidCompositions Gen.ProductMinSizes Gen.ProductMaxSizes Count.GenBridgeValidComps.
 Import ListNotations.
 Open Scope Z_scope.
 
@@ -1474,6 +1476,81 @@ Example C08_draws_return_product_params_value :
   = [Ok [(0, [(1, 0)]); (1, [(1, 1)])]; Ok [(1, [(1, 1)]); (0, [(1, 0)])]; Err E_RUNTIME].
 Proof. vm_compute. reflexivity. Qed.
 
+(* ------------------------------------------------------------ tie to the source (translator)
+   valid_comps (the model of CartesianProduct._valid_compositions every theorem of section 2
+   and the product theorems of sections 1, 3, 5 are about) IS the source function.
+   Gen/ProductRelianceProfile.v and Gen/ProductValidCompositions.v are re-translated from
+   strategies/constructor/cartesian.py (reliance_profile; _valid_compositions with its nested
+   recursive generator _helper) on every run.  The source computes on dictionaries keyed by
+   parameter names, the model on vectors indexed by the position of the name in
+   parent_parameters: for every list pp of distinct names of length d whose first element is
+   the name of "n" (the key 0), with
+     self.minimum_sizes  = zip(pp, pmins)          self.min_child_sizes[i] = zip(pp, mins[i])
+     self.max_child_sizes[i] = the bounded entries of zip(pp, maxs[i])   (max_dict)
+     n = P[0],  **parameters = any dictionary holding P[1..] under pp[1..]
+   reading each yielded dictionary back as a vector (vec_of_dict) gives exactly
+   valid_comps d pmins mins maxs P, in the same order. *)
+Theorem C08_valid_compositions_is_source : forall pp d pmins P params0 mins maxs,
+  NoDup pp -> length pp = d -> nth 0 pp 0 = 0 ->
+  length pmins = d ->
+  (forall i, (0 < i < d)%nat -> Gen.Prelude.py_dget 0 params0 (nth i pp 0) = vget P i) ->
+  Forall (fun v : vec => length v = d) mins ->
+  Forall (fun v : list (option Z) => length v = d) maxs ->
+  mins <> [] -> maxs <> [] ->
+  map (map (GenBridgeValidComps.vec_of_dict pp))
+      (ProductValidCompositions.valid_compositions pp
+         (ProductRelianceProfile.product_reliance_profile
+            (combine pp pmins) (map (combine pp) mins) (map (GenBridgeValidComps.max_dict pp) maxs)
+            (vget P 0) params0)
+         (vget P 0) params0) =
+  valid_comps d pmins mins maxs P.
+Proof.
+  intros pp d pmins P params0 mins maxs H1 H2 H3 H4 H5 H6 H7 H8 H9.
+  exact (GenBridgeValidComps.valid_comps_is_source pp d H1 H2 H3 pmins P params0 H4 H5 mins maxs H6 H7 H8 H9).
+Qed.
+
+(* the recursive generator _helper alone: for dictionaries {name: (lo, hi)} built from the
+   model's boxes and any keyword dictionary holding the vector p *)
+Theorem C08_helper_is_source : forall pp d, NoDup pp -> length pp = d ->
+  forall mms fuel params p,
+  mms <> [] -> Forall (fun mm : list (Z * Z) => length mm = d) mms ->
+  GenBridgeValidComps.holds pp d params p -> (length mms < fuel)%nat ->
+  map (map (GenBridgeValidComps.vec_of_dict pp))
+      (ProductValidCompositions.valid_compositions_helper_fuel fuel pp
+         (map (GenBridgeValidComps.minmax_dict pp) mms) params) =
+  helper d mms p.
+Proof. exact GenBridgeValidComps.helper_is_source. Qed.
+
+(* the bounds get_terms / get_sub_objects hand to utils.compositions (the properties min_sizes,
+   max_sizes; Gen/ProductMinSizes.v, Gen/ProductMaxSizes.v) are column 0 of those vectors *)
+Theorem C08_bounds_are_source : forall pp d mins maxs,
+  NoDup pp -> length pp = d -> nth 0 pp 0 = 0 -> (0 < d)%nat ->
+  Forall (fun v : vec => length v = d) mins ->
+  Forall (fun v : list (option Z) => length v = d) maxs ->
+  ProductMinSizes.product_min_sizes (map (combine pp) mins) = sizes_of mins /\
+  ProductMaxSizes.product_max_sizes (map (GenBridgeValidComps.max_dict pp) maxs) =
+    map (fun mx => nth 0 mx None) maxs.
+Proof.
+  intros pp d mins maxs H1 H2 H3 H4 H5 H6. split.
+  - exact (GenBridgeValidComps.min_sizes_is_source pp d H1 H2 H3 H4 mins H5).
+  - exact (GenBridgeValidComps.max_sizes_is_source pp d H1 H2 H3 H4 maxs H6).
+Qed.
+
+(* the hypotheses are satisfiable and the statement is not vacuous: two children, one extra
+   parameter (name 5), "n" = name 0; both sides enumerate the same two compositions *)
+Example C08_ex_valid_compositions_is_source :
+  let pp := [0; 5] in
+  let pmins := [1; 0] in let P := [3; 1] in
+  let mins := [[1; 0]; [0; 0]] in let maxs := [[Some 1; None]; [None; None]] in
+  map (map (GenBridgeValidComps.vec_of_dict pp))
+      (ProductValidCompositions.valid_compositions pp
+         (ProductRelianceProfile.product_reliance_profile
+            (combine pp pmins) (map (combine pp) mins) (map (GenBridgeValidComps.max_dict pp) maxs)
+            (vget P 0) [(5, 1)])
+         (vget P 0) [(5, 1)]) = valid_comps 2 pmins mins maxs P /\
+  valid_comps 2 pmins mins maxs P = [[[1; 0]; [2; 1]]; [[1; 1]; [2; 0]]].
+Proof. vm_compute. split; reflexivity. Qed.
+
 Print Assumptions C08_threshold.
 Print Assumptions C08_threshold_interval.
 Print Assumptions C08_threshold_union.
@@ -1507,3 +1584,6 @@ Print Assumptions C08_union_total_params.
 Print Assumptions C08_product_total_params.
 Print Assumptions C08_draws_return_union_params.
 Print Assumptions C08_draws_return_product_params.
+Print Assumptions C08_valid_compositions_is_source.
+Print Assumptions C08_helper_is_source.
+Print Assumptions C08_bounds_are_source.
